@@ -228,6 +228,10 @@ class PList:
         return f"PList({self.items})"
 
 
+class PKeys(PList):
+    """dict.keys() of a concrete-shape dictionary: a PList that also supports the set operators of key views."""
+
+
 class SList:
     """Sequence of symbolic length.  elem(idx) -> Value for a z3 Int/py int index."""
 
